@@ -63,6 +63,13 @@ def finish(prop, tier, t0, *, level, coverage, assumptions, violations, harness_
             continue
         seen_known.add(v["key"])
         print(f"KNOWN-FINDING: property={prop} {v['key']}: {known[v['key']].get('what', v.get('what',''))}")
+    seen_new = set()
+    uniq = []
+    for v in new:
+        if v["key"] not in seen_new:
+            seen_new.add(v["key"])
+            uniq.append(v)
+    new = uniq
     for v in new:
         path = write_replay(prop, v["key"], {"property": prop, "key": v["key"], "what": v.get("what"), **(v.get("payload") or {})})
         print(f"VIOLATION property={prop} replay={path}")
